@@ -208,6 +208,43 @@ theorem immutable_retag_denied (hok : ImmutableOk = true) (H : Bytes → Bytes) 
   rw [immStep_pushManifest hok]
   simp [ht, immPush, hcur, hdiff]
 
+/-- Whatever the backend does in between (another client may win the race for the tag):
+when a tagged `PushManifest` through the wrapper reports success, the descriptor it returns
+names the pushed content and is the answer of a `ResolveTag` made as the last step of the
+call — a lost race is never reported as a success. -/
+theorem immutable_push_ok_is_resolved (hok : ImmutableOk = true) (H : Bytes → Bytes) (B : Backend S)
+    (s : S) (r t data mt : Bytes) (dec : Mem.Decoded) (ht : t ≠ []) (d : Mem.Desc)
+    (h : (immStep H B s (.pushManifest r t data mt dec)).2.1 = some (.okDesc d)) :
+    d.digest = H data ∧
+    ∃ s', (B s' (.resolveTag r t)).2 = .okDesc d ∧
+      (immStep H B s (.pushManifest r t data mt dec)).1 = (B s' (.resolveTag r t)).1 ∧
+      (immStep H B s (.pushManifest r t data mt dec)).2.2.getLast? = some (.resolveTag r t) := by
+  rw [immStep_pushManifest hok] at h ⊢
+  simp only [ht, if_false] at h ⊢
+  unfold immPush at h ⊢
+  simp only at h ⊢
+  split at h
+  · rename_i d0 hd0
+    split at h
+    · rename_i hdig
+      simp only [Option.some.injEq, Out.okDesc.injEq] at h
+      subst h
+      exact ⟨hdig, s, hd0, by simp [hdig], by simp [hdig]⟩
+    · simp at h
+  · split at h
+    · simp at h
+    · split at h
+      · rename_i d1 hd1
+        split at h
+        · simp at h
+        · rename_i hdig
+          simp only [Option.some.injEq, Out.okDesc.injEq] at h
+          subst h
+          have hdig' : d1.digest = H data := by simpa using hdig
+          exact ⟨hdig', (B (B s (.resolveTag r t)).1 (.pushManifest r t data mt dec)).1, hd1,
+            by simp [hdig'], by simp [hdig']⟩
+      · simp at h
+
 /-- Every method other than `PushManifest` and the deletes goes straight to the
 wrapped registry. -/
 theorem immutable_others_transparent (hok : ImmutableOk = true) (H : Bytes → Bytes) (B : Backend S) (s : S) (op : Op)
